@@ -79,7 +79,7 @@ def build(all_ids):
         "engines": [{"name": "symjnp", "path": "symjnp/", "serves_properties": sorted(CLAIMED),
                      "kind_free_text": "forward symbolic executor of the real exponax function objects under a jax.numpy contract shim (index-lambda arrays over z3 terms), callee-by-contract stubs, scan invariants, VCs discharged by z3 with a ring / exponential-polynomial normaliser front end; native replay of counterexamples on real jax"}],
         "checks": checks,
-        "notes": "Every check's cone is closed under callees (a contract used as a stub in a proof is itself verified in the same check). Attribution: C01-C05, C12, C14-C18 state 'equals the documented formula' and are decided by exactly those contracts; C10, C11, C13 are decided by direct checks of their own statement on the real code (C13: pairs of real constructors compared field by field, plus the conversion-function contracts) and C20 by the rejection/shape obligations only; C08, C09 are derived properties decided through the documented-formula contracts (sound: nothing that breaks them passes; not sharp: a change that breaks the documented formula but happens to keep the symmetry / conservation / equivalence still alarms -- DESIGN 10.12). All checks rebuild everything from /repo's working tree (VERIF_REPO overrides for scratch copies). Exit codes: 0 held, 1 violation, 2 undecided, 3 tool failure. quick = all contract obligations and lemmas of the property's cone (unbounded proofs); thorough = quick + a BOUNDED native conformance sweep (5 concrete configurations per contract case on the real jax, float64, against the numerically evaluated spec; reported under coverage.bounded_conformance_sweep, never counted as discharged) + lean re-check of lemmas/Axioms.lean (the exp/cos/sin/sqrt/pi schemes the solver uses). Results of shared (contract, case) items are cached under .cache/<hash of /repo/exponax and of the verifier sources>.",
+        "notes": "Every check's cone is closed under callees (a contract used as a stub in a proof is itself verified in the same check). Attribution: C01-C05, C12, C14-C18 state 'equals the documented formula' and are decided by exactly those contracts; C10, C11, C13 are decided by direct checks of their own statement on the real code (C13: pairs of real constructors compared field by field, plus the conversion-function contracts) and C20 by the rejection/shape obligations only (including the constructor clauses num_channels / num_points / num_spatial_dims, which define the accepted state shape); C08, C09 are derived properties decided through the documented-formula contracts (sound: nothing that breaks them passes; not sharp: a change that breaks the documented formula but happens to keep the symmetry / conservation / equivalence still alarms -- DESIGN 10.12). All checks rebuild everything from /repo's working tree (VERIF_REPO overrides for scratch copies). Exit codes: 0 held, 1 violation, 2 undecided, 3 tool failure. quick = all contract obligations and lemmas of the property's cone (unbounded proofs); thorough = quick + a BOUNDED native conformance sweep (5 concrete configurations per contract case on the real jax, float64, against the numerically evaluated spec; reported under coverage.bounded_conformance_sweep, never counted as discharged) + lean re-check of lemmas/Axioms.lean (the exp/cos/sin/sqrt/pi schemes the solver uses). Results of shared (contract, case) items are cached under .cache/<hash of /repo/exponax and of the verifier sources>.",
         "not_applicable": sorted(na, key=lambda d: d["property_id"]),
     }
 
